@@ -83,6 +83,20 @@ static void SbInitOnce()
 		l->SetTicketSalt(SB_SALT_FIELD);
 		l->Register();
 	}
+	// containers that HOLD the objects with hidden fields (a dictionary literal cannot be built inside a sandbox): what serialisers
+	// and stringifiers are handed, nested at several depths; and containers of references to the hidden fields themselves
+	try {
+		std::unique_ptr<Expression> expr = ConfigCompiler::CompileText("<sb-secret-containers>",
+			"var u = get_object(ApiUser, \"sbu\")\nvar l = get_object(ApiListener, \"sbapi\")\n"
+			"globals.SbSecD = { u = u, l = l }\n"
+			"globals.SbSecA = [ [ u ], { u = u }, [ [ l ] ] ]\n"
+			"globals.SbSecNest = { a = { b = [ u, l ], c = { d = { u = u } } } }\n"
+			"globals.SbSecRefs = { r = &u.password, a = [ &l.ticket_salt, &u.password_hash ] }\n");
+		ScriptFrame frame(true);
+		expr->Evaluate(frame);
+	} catch (const std::exception& ex) {
+		Out(std::string("# sb-secret-containers FAILED: ") + ex.what());
+	}
 	std::ofstream f(ScratchDir() + "/data/sbfile.txt");
 	f << "protected file\n";
 }
